@@ -35,6 +35,13 @@ func vfStub_os_LookupEnv(key string) (string, bool) {
 	return "", false
 }
 
+// os.Getenv is os.LookupEnv without the flag (the templates use LookupEnv; a
+// change to Getenv must still be executable)
+func vfStub_os_Getenv(key string) string {
+	v, _ := vfStub_os_LookupEnv(key)
+	return v
+}
+
 func vfStub_strconv_Atoi(s string) (int, error) {
 	if vfAtoiOK {
 		return vfAtoiN, nil
